@@ -544,6 +544,21 @@ theorem run_status {cfg : Conf} (hf : cfg.fixed = true) {s : St} (h : SInv cfg s
         · exact i1 ⟨x, hx, hxe⟩
       · exact i2 (fun ⟨x, hx, hxe⟩ => hno ⟨x, List.mem_cons_of_mem _ hx, hxe⟩)
 
+/-- on the six board sizes `tak.New` succeeds and the loop starts -/
+theorem start_running (cfg : Conf) (size : Nat) (secs : Int) (h1 : 3 ≤ size) (h2 : size ≤ 8) :
+    (start cfg size secs).status = .running := by
+  unfold start
+  have hl : Facts.defaultPieces.length = 9 := by decide
+  have : ∃ p, Pos.new { size := size, pieces := 0, capstones := 0, blackWinsTies := false } = .ok p := by
+    unfold Pos.new
+    simp only [hl]
+    rw [if_neg (by omega)]
+    show ∃ p, (if size < 3 ∨ size > 8 then _ else _) = Except.ok p
+    rw [if_neg (by omega)]
+    exact ⟨_, rfl⟩
+  obtain ⟨p, hp⟩ := this
+  rw [hp]
+  rfl
 /-! ### the hypotheses of `bot_ends_iff` are decidable on concrete traces -/
 
 instance (basis : Array W) (p : Pos) (m : Move) : Decidable (Legal basis p m) :=
